@@ -15,6 +15,9 @@ CHECKS = {
          'The accounting identities are decided for all parameter values, prices and ALL vectors x (not only optima) on every catalogue shape incl. split, periodic, coarse, scaled, structured, order book; asset blocks come from the recorded order/sizes of the assets\' own set-up calls, not from the mapping.'),
  'C07': ('structural comparison + Q2 term identities + Q1 (l<=u) between the assembled problem and the assets\' own problems, nodal-row bijection', '6 C07',
          'For every catalogue shape and feasible set-up path: every entry of c,l,u,A,b of the assembled problem equals the owning asset\'s own entry as a term (for all parameter values), mapping rows equal the asset\'s own rows at offset positions, unmapped variables are inert, l<=u under the documented domain, nodal rows are in bijection with (node, step) pairs and carry the summed dispatch factors.'),
+
+ 'C05': ('Q1 invariants over all feasible x against physical charge/discharge/level terms defined from the variables\' meaning; reporting identities through the real extract_output / Storage.fill_level', '6 C05',
+         'For every storage configuration of the catalogue (one/two nodes, efficiency, inflow, windows, 30-min/day-unit grid, no_simult_in_out, max_store_duration, block_size, coarse freq) embedded in a portfolio: level bounds, end level, rates, no-simultaneous, holding-time windows and truthful reporting hold for ALL feasible points and all parameter values; one open known finding (KF-C05-msd) is enforced outside its trigger region.'),
 }
 NA = {}
 props = [json.loads(l) for l in open(os.path.join(ROOT, 'properties.jsonl'))]
